@@ -6,9 +6,10 @@ cd $WT || exit 9
 git diff > $OUT/patch.confirm.diff
 if [ ! -s $OUT/patch.confirm.diff ]; then echo "NO CHANGE APPLIED in $WT"; exit 9; fi
 PYTHONPATH=$WT timeout 300 /venv/bin/python $OUT/demo.py > $OUT/demo_with.log 2>&1; W=$?
-git stash -q
+# never `git stash` here: the stash is shared by all worktrees of /repo and seeding agents work in parallel
+git apply -R $OUT/patch.confirm.diff || { echo "cannot revert the change"; exit 9; }
 PYTHONPATH=$WT timeout 300 /venv/bin/python $OUT/demo.py > $OUT/demo_without.log 2>&1; WO=$?
-git stash pop -q
+git apply $OUT/patch.confirm.diff || { echo "cannot re-apply the change"; exit 9; }
 echo "demo with change: exit $W ; without: exit $WO"
 /venv/bin/python -m pytest -q -p no:cacheprovider --timeout=900 --continue-on-collection-errors -n 16 --junitxml=$OUT/confirm.xml > $OUT/confirm.log 2>&1
 /venv/bin/python /verif/tools/cmp_baseline.py $OUT/confirm.xml | head -5
